@@ -269,6 +269,7 @@ class World:
             nd = p.node[op["ds"]]
             while nd["k"] == "derive":  # a derived dataset: effects are named after the family's origin
                 nd = p.node[nd["base"]]
+            base -= len(nd.get("effects_opt", [])) + len(nd.get("log_effects", []))  # (plain effects are numbered among themselves)
             ds.add_effects(*[_effect(nd["name"], base + i) for i in range(op["n"])])
         elif kind == "set_cache":
             from .build import RecordingCache
